@@ -379,6 +379,15 @@ func c07R2(c *Ctx) {
 				reason, ok = c.tabledS(c07AssertTable, fn, "|"+shortType(ta.AssertedType)+"|"+origin)
 			}
 			if !ok {
+				// the assertion moved into a helper shared by tabled functions: every caller has a tabled assertion of the
+				// same type on the same origin
+				inRun := map[*ssa.Function]bool{}
+				for _, f2 := range fns {
+					inRun[f2] = true
+				}
+				reason, ok = c.sharedTabledIn(c07AssertTable, fn, shortType(ta.AssertedType)+"|"+origin, inRun)
+			}
+			if !ok {
 				// a CHECK line is recomputed at the site, so it also covers the same assertion moved into another function
 				suffix := "|" + shortType(ta.AssertedType) + "|" + origin
 				for k, v := range c07AssertTable {
@@ -1579,8 +1588,22 @@ func c07R12(c *Ctx) {
 // sharedTabledPanic: fn is called (statically, never as a value) only by functions that each have a tabled panic with
 // the message msg; the reasons are joined.
 func (c *Ctx) sharedTabledPanic(table map[string]string, fn *ssa.Function, msg string) (string, bool) {
-	sites := c.CG().callers[fn]
-	if len(sites) < 2 || len(sites) > 6 || c.usedAsValue(fn) {
+	return c.sharedTabledIn(table, fn, msg, nil)
+}
+
+// sharedTabledIn: like sharedTabledPanic, looking only at the callers inside `scope` (nil: all callers).
+func (c *Ctx) sharedTabledIn(table map[string]string, fn *ssa.Function, msg string, scope map[*ssa.Function]bool) (string, bool) {
+	all := c.CG().callers[fn]
+	if len(all) < 2 || len(all) > 6 || c.usedAsValue(fn) {
+		return "", false
+	}
+	sites := all[:0:0]
+	for _, st := range all {
+		if g := st.Instr.Parent(); scope == nil || (g != nil && scope[g]) {
+			sites = append(sites, st)
+		}
+	}
+	if len(sites) == 0 {
 		return "", false
 	}
 	var reasons []string
@@ -1592,6 +1615,16 @@ func (c *Ctx) sharedTabledPanic(table map[string]string, fn *ssa.Function, msg s
 			return "", false
 		}
 		r, ok := c.tabledS(table, g, "|"+msg)
+		if !ok && strings.HasSuffix(msg, "|") {
+			// type only: the caller has a tabled assertion to the same type (the origin reads differently inside the helper)
+			for _, nm := range c.tableNames(g) {
+				for k, v := range table {
+					if strings.HasPrefix(k, nm+"|"+msg) {
+						r, ok = v, true
+					}
+				}
+			}
+		}
 		if !ok {
 			return "", false
 		}
